@@ -79,7 +79,7 @@ theorem le_of_exponent_pos {f : Fmt} (h : FOK f) {y : Nat} (hy : 0 < exponent f 
   have := exponent_le_zero h hlt hfin
   omega
 
-theorem fdiv_le_self {f : Fmt} (hf : WF f) {x b : Nat} (hxi : x ≤ f.infBits) (hb : unit f ≤ RoundNE.ival f b) :
+theorem fdiv_le_self {f : Fmt} (hf : WF f) {x b : Nat} (_hxi : x ≤ f.infBits) (hb : unit f ≤ RoundNE.ival f b) :
     fdiv f x b ≤ x := by
   have hu := unit_pos f
   have hle : fdiv f x b ≤ roundNE f (RoundNE.ival f x) (unit f) := by
@@ -90,7 +90,7 @@ theorem fdiv_le_self {f : Fmt} (hf : WF f) {x b : Nat} (hxi : x ≤ f.infBits) (
   · rwa [roundNE_of_ival hf hlt hu (by rw [unit_eq])] at hle
   · exact Nat.le_trans hle (Nat.le_trans (roundNE_le_infBits hf _ hu) hge)
 
-theorem fsub_le_self {f : Fmt} (hf : WF f) {x b : Nat} (hxi : x ≤ f.infBits) : fsub f x b ≤ x := by
+theorem fsub_le_self {f : Fmt} (hf : WF f) {x b : Nat} (_hxi : x ≤ f.infBits) : fsub f x b ≤ x := by
   have hu := unit_pos f
   have hle : fsub f x b ≤ roundNE f (RoundNE.ival f x) (unit f) := by
     unfold fsub
